@@ -226,6 +226,11 @@ def run(chk):
         jobs.append(("random-bytes", rnd.choice(["slha", "gm2calc", "thdm"]), bytes(rnd.randrange(256) for _ in range(n)), rnd.random() < 0.3, None, None))
     optpool = ["--slha-input-file=", "--gm2calc-input-file=", "--thdm-input-file=", "--help", "-h", "--version", "-v", "--bogus", "", "-", "--slha-input-file", "--thdm-input-file=/nonexistent/file",
                "--gm2calc-input-file=/", "--slha-input-file=/dev/null", "--slha-input-file=-", "--", "-x", "--help=1", "--slha-input-file=" + "A" * 5000]
+    # systematic: every input option with unreadable files whose names carry characters that are special to formatting or shells
+    for o in ("--slha-input-file=", "--gm2calc-input-file=", "--thdm-input-file="):
+        for nm in ("/nonexistent/100%.in", "/nonexistent/point_%s.in", "/nonexistent/%n%n%n%n", "/nonexistent/%1$s", "/nonexistent/%", "/nonexistent/%%", "/nonexistent/%d%d%d%d%d%d%d%d",
+                   "/nonexistent/{}{0}", "/nonexistent/a b\tc", "/nonexistent/\\n", "/nonexistent/" + "%s" * 300, "/nonexistent/\x01\x7f", "/nonexistent/\"quoted\"", "/nonexistent/#comment"):
+            jobs.append(("command-line", "cmdline", None, False, [o + nm], [o + nm]))
     exf = os.path.join(d, "example.in")
     open(exf, "wb").write(seeds[0][1])
     for i in range(nmut // 10):
